@@ -12,8 +12,8 @@ import re
 
 from hypothesis import strategies as st
 
-LIT_PIECES = ['a', 'b', 'ab', 'abc', 'c', '/', '/', '/', '/', '1', '12', '-', '.', 'é', '日', 'le', 'end', 'x', 'to', '_', 'A']
-NAMES = ['a', 'b', 'c', 'id', 'name', 'x', 'y', 'pth', 'user_1', '_p', 'N']
+LIT_PIECES = ['a', 'b', 'ab', 'abc', 'c', '/', '/', '/', '/', '1', '12', '-', '.', 'é', '日', 'le', 'end', 'x', 'to', '_', 'A', '\\', 'a\\b', '\\.', '/a/a', '/ed/it/']
+NAMES = ['a', 'b', 'c', 'id', 'name', 'x', 'y', 'pth', 'user_1', '_p', 'N', 'query', 'self', 'args', 'kw', 'rule', 'method', 'path', 'anchor']       # (incl. names an API might use for its own keyword parameters)
 RE_POOL = ['to.', '[a-c]+', r'\d{2}', '[^/]+', 'pro.+?(?=l)', '(?:ab)+', 'a|ab', '[0-9a-f]{1,3}', '.+', 'a*',
            r'-?\d+', r'-?\d+(\.\d+)?', r'\d+',
            # capturing groups that cover a part of the match, the whole match, repeat, or do not take part: the wildcard is bound to the whole match
@@ -396,11 +396,11 @@ def derived_rule_st(draw, base):
 
 
 VALUE_POOL = {
-    None: ['tom', '12', 'a', 'ab', 'abc', 'é', 'x.y', '-3', '', 'a b', 'a\rb', 'to', 'le', '日本', '1', 'b'],
+    None: ['tom', '12', 'a', 'ab', 'abc', 'é', 'x.y', '-3', '', 'a b', 'a\rb', 'to', 'le', '日本', '1', 'b', 'e\u0301', '\u2126', 'A\u030a', '\u212b'],
     'int': ['12', '-3', '007', '0', '1', '-0', '99', '5\u00b2', '\u00b2', '\u2460', '\u0663', '\uff15', '1\u00b9', '-\u0661', '+5', '+0', '1+2', ' 7', '1_0', '0x1f'],
     'float': ['1.5', '-2.0', '3', '0.0', '1.', '12.25', '1e3', '+1.5', '.5', '1_0.0', 'inf', 'nan', '-.5'],
     're': ['tom', 'tos', 'to/', 'to', 'abc', 'ab', 'abab', '12', '123', 'profile', 'prol', 'a', 'aa', 'ff', 'x/y', '', '-007', '1.50', '42'],
-    'path': ['a/b', 'this/path/to', 'x', 'a', 'end', 'a/end/b', 'le', ''],
+    'path': ['a/b', 'this/path/to', 'x', 'a', 'end', 'a/end/b', 'le', '', 'x/a/a', 'a/ed/it/x/ed/y', 'a/a/a'],
     'rex': ['a1', 'b22', 'png', 'jpg', 'x', 'yy', 'zzz', 'tom', 'ab', 'a07', 'q'],
 }
 
